@@ -108,4 +108,10 @@ Definition check_cut : rd verdict :=
 
 Definition check_c07 : rd verdict := kind <- getz ;; if kind =? 1 then check_codec else fail.
 Definition check_c08 : rd verdict := kind <- getz ;; if kind =? 1 then check_detect else if kind =? 2 then check_chain else fail.
-Definition check_c09 : rd verdict := kind <- getz ;; if kind =? 1 then check_cut else fail.
+(* the attack command killed while writing: every result whose response was complete well before
+   the kill is in the output, and the output is a clean prefix (sequence 0..n-1) *)
+Definition check_attack_out : rd verdict :=
+  completed <- getz ;; n <- getz ;; clean <- getbool ;;
+  ret (combine_verdicts [ prop_ok 3 (completed <=? n) [completed; n]; prop_ok 1 clean [n] ]).
+
+Definition check_c09 : rd verdict := kind <- getz ;; if kind =? 1 then check_cut else if kind =? 2 then check_attack_out else fail.
